@@ -192,6 +192,10 @@ func VerifC01_Scalars() {
 		if rep == repFloat64 || rep == repFloat32 {
 			raw = nondetStringLen("rawstr", 1000) // formatted floats have no symbolic model
 		}
+		if rep == repBool {
+			// strings with multi-byte characters (bool is not a string representation anyway)
+			raw = nondetStringFrom("rawmb", "", "a", "é", "éé", "héé", "日本", "aaaa")
+		}
 	case 5:
 		s = NewStringEnumSchema(map[string]*DisplayValue{"a": nil, "12": nil, "-3": nil})
 		raw = nondetStringFrom("rawenum", "a", "12", "-3", "b", "")
@@ -275,7 +279,7 @@ func verifStrPtr(s string) *string { return &s }
 func VerifC01_Object() {
 	o := NewObjectSchema("O", map[string]*PropertySchema{
 		"a": NewPropertySchema(NewIntSchema(verifOptInt64("amin"), nil, nil), nil, true, nil, nil, nil, nil, nil),
-		"b": NewPropertySchema(NewStringSchema(nil, nil, nil), nil, false, nil, nil, nil, verifStrPtr(`"dflt"`), nil),
+		"b": NewPropertySchema(NewStringSchema(verifOptInt64("bmin"), nil, nil), nil, false, nil, nil, nil, verifStrPtr(`"dflt"`), nil),
 		"c": NewPropertySchema(NewListSchema(NewIntSchema(nil, nil, nil), nil, nil), nil, false, nil, nil, nil, nil, nil),
 	})
 	anyKeys := nondetBool("anyKeys")
@@ -285,7 +289,7 @@ func VerifC01_Object() {
 		m["a"] = verifRawSmall("a", nondetChoice("arep", 3))
 	}
 	if hasB {
-		m["b"] = nondetStringFrom("b", "x", "", "dflt")
+		m["b"] = nondetStringFrom("b", "x", "", "dflt", "éé")
 	}
 	if hasC {
 		m["c"] = []any{nondetInt64("c0")}
